@@ -446,3 +446,51 @@ class DriverRules:
                         rec.ob('R15.b', 'R15.b@%s::live-counter-zero' % fkey(f), okl, '%s:%s' % (f['file'], f['line']),
                                'T=%d: live counter is %s when %s returns' % (T, show(lv) if lv else '?', f['name']))
         rec.count('R15.a operation exits', n, 3)
+
+
+def _bounds(self):
+    """R11.d: every header read fits the object it is read into, for every thread count."""
+    rec, D = self.rec, self.D
+    prog = self.prog
+    n = 0
+    for T in self.Ts:
+        for op in ('decrypt', 'verify'):
+            f = D.ops[op]
+            I, out = self.run(op, T)
+            for s, v in out:
+                for e in accesses(s):
+                    if e[0] != 'R' or e[4][0] != 'loc':
+                        continue
+                    obj, path = e[4][1], e[4][2]
+                    size = e[3]
+                    cap = None
+                    if path and isinstance(path[-1], int):
+                        # element of an array: a record field array or a new[] allocation
+                        if len(path) >= 2 and isinstance(path[-2], str):
+                            fld = path[-2]
+                            for r in prog.records.values():
+                                for x in r['fields']:
+                                    if x['d'][2:] == fld and prog.type(x['t']).get('k') == 'array':
+                                        cap = prog.type(x['t']).get('size', 0) - path[-1]
+                        elif len(path) == 1:
+                            cnt = s.comps.get(('alloc', obj))
+                            if cnt is not None and cnt[0] == 'c':
+                                cap = cnt[1] - path[-1]
+                    elif not path or isinstance(path[-1], str):
+                        cap = 8     # scalar destinations: at most 8 bytes (checked against the declared type below)
+                        for r in prog.records.values():
+                            for x in r['fields']:
+                                if path and x['d'][2:] == path[-1]:
+                                    cap = prog.type(x['t']).get('size', 8)
+                        if isinstance(obj, tuple) and obj[0] == 'L':
+                            cap = 8
+                    if cap is None:
+                        continue
+                    n += 1
+                    r = rng(size, s.sym) if is_int(size) else None
+                    ok = r is not None and r[1] <= cap
+                    rec.ob('R11.d', 'R11.d@%s::read-fits-buffer' % e[6], ok, e[5], 'T=%d %s: read of %s bytes into an object with %s bytes left' % (T, op, show(size), cap))
+    rec.count('R11.d header reads', n, 4)
+
+
+DriverRules.bounds = _bounds
